@@ -94,6 +94,7 @@ type Builder struct {
 	Vars       []*Term
 	UFs        map[string]UFSig
 	fresh      int
+	exDepth    int
 	SignedVars map[string]bool // input variables of signed Go types (LIA declares them in the signed range)
 }
 
@@ -532,6 +533,49 @@ func (b *Builder) Xor(x, y *Term) *Term {
 	if y.isOnes() {
 		return b.Not(x)
 	}
+	if x.Op == OXor || y.Op == OXor {
+		// AC-normalise xor chains: flatten, cancel pairs, fold constants, rebuild in id order
+		var ops []*Term
+		k := new(big.Int)
+		var flat func(t *Term)
+		flat = func(t *Term) {
+			switch {
+			case t.Op == OXor:
+				flat(t.Args[0])
+				flat(t.Args[1])
+			case t.IsConst():
+				k.Xor(k, t.K)
+			default:
+				ops = append(ops, t)
+			}
+		}
+		flat(x)
+		flat(y)
+		sort.Slice(ops, func(i, j int) bool { return ops[i].ID < ops[j].ID })
+		var out []*Term
+		for i := 0; i < len(ops); i++ {
+			if i+1 < len(ops) && ops[i] == ops[i+1] {
+				i++
+				continue
+			}
+			out = append(out, ops[i])
+		}
+		if len(out) == 0 {
+			return b.Const(w, k)
+		}
+		r := out[0]
+		for _, t := range out[1:] {
+			r = b.mk(OXor, x.S, nil, 0, 0, "", r, t)
+		}
+		if k.Sign() != 0 {
+			kc := b.Const(w, k)
+			if kc.isOnes() {
+				return b.Not(r)
+			}
+			r = b.mk(OXor, x.S, nil, 0, 0, "", r, kc)
+		}
+		return r
+	}
 	if x.IsConst() || (!y.IsConst() && x.ID > y.ID) {
 		x, y = y, x
 	}
@@ -614,6 +658,8 @@ func (b *Builder) LShr(x, y *Term) *Term { return b.shift(OLShr, x, y) }
 func (b *Builder) AShr(x, y *Term) *Term { return b.shift(OAShr, x, y) }
 
 func (b *Builder) Extract(x *Term, hi, lo int) *Term {
+	b.exDepth++
+	defer func() { b.exDepth-- }()
 	w := int(x.S)
 	if hi >= w || lo < 0 || hi < lo {
 		panic(fmt.Sprintf("bad extract [%d:%d] of %d", hi, lo, w))
@@ -662,7 +708,11 @@ func (b *Builder) Extract(x *Term, hi, lo int) *Term {
 				return b.Ite(b.Eq(q, b.ConstU(w, 0)), b.ConstU(1, 0), b.ConstU(1, 1))
 			}
 		}
-		// push extract through bitwise ops (keeps byte-level structure small)
+		// push extract through bitwise ops (keeps byte-level structure small); bounded depth so that
+		// deep shared DAGs (hash rounds) are not re-traversed exponentially
+		if b.exDepth > 3 {
+			break
+		}
 		a0, a1 := b.Extract(x.Args[0], hi, lo), b.Extract(x.Args[1], hi, lo)
 		switch x.Op {
 		case OAnd:
@@ -673,7 +723,9 @@ func (b *Builder) Extract(x *Term, hi, lo int) *Term {
 			return b.Xor(a0, a1)
 		}
 	case ONot:
-		return b.Not(b.Extract(x.Args[0], hi, lo))
+		if b.exDepth <= 3 {
+			return b.Not(b.Extract(x.Args[0], hi, lo))
+		}
 	case OIte:
 		if x.Args[1].IsConst() || x.Args[2].IsConst() {
 			return b.Ite(x.Args[0], b.Extract(x.Args[1], hi, lo), b.Extract(x.Args[2], hi, lo))
